@@ -109,6 +109,7 @@ pub fn run(a: &Args) {
     let mut r = StdRng::seed_from_u64(seed ^ 0x10);
     let mut out = Out::new(&a.str("out", "/dev/stdout"));
     let marker = a.get("marker").map(|s| s.to_string());
+    let fix = a.num("fix", 0) == 1;
     let borrowy = [
         Shape::Struct(vec![("a".into(), Shape::Str), ("f".into(), Shape::F32), ("b".into(), Shape::Bytes)]),
         Shape::Tuple(vec![Shape::Str, Shape::Str]),
@@ -118,8 +119,12 @@ pub fn run(a: &Args) {
     ];
     for i in 0..n {
         vcommon::obs::mark_case(&marker, &format!("io:{seed}:{i}"));
-        let s = if i % 3 == 0 { borrowy[r.gen_range(0..borrowy.len())].clone() } else if i % 3 == 1 { gen::leaf_shape(&mut r) } else { gen::gshape(&mut r, 2) };
-        let eio = i % 2 == 1;
+        let s = if fix {
+            // C13: fixed-width adapters through the byte transports, bare and between ordinary fields
+            let f = Shape::Fix(i % 2 == 1, IntK::ALL[(i / 2) % 8]);
+            if (i / 16) % 2 == 0 { f } else { Shape::Tuple(vec![Shape::U8, f, Shape::Str]) }
+        } else if i % 3 == 0 { borrowy[r.gen_range(0..borrowy.len())].clone() } else if i % 3 == 1 { gen::leaf_shape(&mut r) } else { gen::gshape(&mut r, 2) };
+        let eio = if fix { (i / 32) % 2 == 1 } else { i % 2 == 1 };
         // ---- writer side
         let v = gen::gval(&mut r, &s, false);
         let plain = postcard::to_allocvec(&SV(&s, &v)).expect("encode");
